@@ -16,6 +16,7 @@ mod c13;
 mod c19;
 mod c11;
 mod c08;
+mod c04;
 
 fn main() {
     let args: Vec<String> = std::env::args().collect();
@@ -38,6 +39,7 @@ fn main() {
         "c19" => c19::main(rest),
         "c11" => c11::main(rest),
         "c08" => c08::main(rest),
+        "c04" => c04::main(rest),
         other => {
             eprintln!("unknown property {other}");
             std::process::exit(2);
